@@ -70,6 +70,21 @@ class VwMap(collections.abc.Mapping):
     def __len__(self):
         return len(self._d)
 
+class VwDictSub(dict):
+    """a dict subclass that presents a filtered view of its storage (consistently, through every accessor)"""
+    def _ok(self, k):
+        return not (isinstance(k, str) and k.startswith("_"))
+    def __iter__(self):
+        return (k for k in dict.__iter__(self) if self._ok(k))
+    def keys(self):
+        return [k for k in dict.__iter__(self) if self._ok(k)]
+    def items(self):
+        return [(k, dict.__getitem__(self, k)) for k in dict.__iter__(self) if self._ok(k)]
+    def values(self):
+        return [dict.__getitem__(self, k) for k in dict.__iter__(self) if self._ok(k)]
+    def __len__(self):
+        return len(self.keys())
+
 class VwSame:
     a: typing.Any
     def __init__(self, a, b=None):
@@ -150,9 +165,10 @@ def gen_x(rng):
     kind = core.weighted(rng, [(4, "map"), (6, "struct"), (5, "seq"), (2, "set"), (5, "stream"), (1, "text")])
     n = rng.choice([0, 0, 1, 2, 3, 5])
     if kind == "map":
-        keys = rng.sample(["a", "b", "c", 1, 2, "ab", None, True], min(n, 6))
+        keys = rng.sample(["a", "b", "c", 1, 2, "ab", None, True, "_h"], min(n, 6))
         pairs = [[k, copy.deepcopy(rng.choice(ELEMS))] for k in keys]
-        return {"x": core.weighted(rng, [(4, "dict"), (1, "odict"), (1, "mproxy"), (2, "cmap")]), "pairs": pairs}
+        return {"x": core.weighted(rng, [(4, "dict"), (1, "odict"), (1, "mproxy"), (2, "cmap"), (2, "odict_moved"), (2, "dictsub"), (1, "ddict")]),
+                "pairs": pairs, "move": [rng.randint(0, 5), rng.random() < 0.5]}
     if kind == "struct":
         cls = rng.choice(CLASSES)
         first = rng.choice(ELEMS + PAIRS + PAIRS)
@@ -225,12 +241,18 @@ class C18(PropBase):
         V = sess.V
         m0 = sess.world.modules["vw0"]
         m1 = sess.world.modules["vw1"]
-        if kind in ("dict", "odict", "mproxy", "cmap"):
+        if kind in ("dict", "odict", "mproxy", "cmap", "odict_moved", "dictsub", "ddict"):
             pairs = [(V(k), V(v)) for k, v in spec["pairs"]]
             d = dict(pairs)
             x = {"dict": lambda: d, "odict": lambda: collections.OrderedDict(pairs), "mproxy": lambda: types.MappingProxyType(d),
-                 "cmap": lambda: m0.VwMap(pairs)}[kind]()
-            items = list(d.items())
+                 "cmap": lambda: m0.VwMap(pairs), "odict_moved": lambda: collections.OrderedDict(pairs), "dictsub": lambda: m0.VwDictSub(pairs),
+                 "ddict": lambda: collections.defaultdict(list, pairs)}[kind]()
+            if kind == "odict_moved" and len(x) >= 2:
+                # an order the mapping reports but its underlying storage does not have
+                idx, last = spec.get("move", [0, True])
+                x.move_to_end(list(x)[idx % len(x)], last=last)
+            # the model: the pairs the mapping itself reports, in its own order
+            items = [(k, x[k]) for k in x]
             return x, items, [v for _, v in items], {"reiterable": True}
         if kind == "struct":
             cname = spec["cls"]
